@@ -88,9 +88,10 @@ class BufferedPipe:
         """
         self._lock.acquire()
         try:
-            if self._event is not None:
-                self._event.set()
             self._buffer_frombytes(b(data))
+            # an empty feed on an empty buffer leaves nothing to read
+            if self._event is not None and len(self._buffer) > 0:
+                self._event.set()
             self._cv.notify_all()
         finally:
             self._lock.release()
